@@ -972,3 +972,6 @@ def check(ctx):
     r5_attribute_keys(ctx, s2v or {})
     r6_caller_locations(ctx)
     r7_inheritance(ctx)
+
+
+CLAUSE += '; the RON reader goes as deep as the writer; strings are handed between builder functions and written by the attribute macros as given; every source of from! reaches the Import'
